@@ -189,6 +189,12 @@ pub fn norm_elem<R: Rng>(rng: &mut R, n: Fq) -> Option<Fq2> {
     }
     None
 }
+/// a sixth root of unity of Fq other than +-1: w, w^2, -w, -w^2 (w the primitive cube root of unity)
+pub fn unity_root<R: Rng>(rng: &mut R) -> Fq {
+    let three = Fq::one() + Fq::one() + Fq::one();
+    let w = ((-three).sqrt().unwrap() - Fq::one()) * (Fq::one() + Fq::one()).inverse().unwrap();
+    match rng.gen_range(0..4) { 0 => w, 1 => w * w, 2 => -w, _ => -(w * w) }
+}
 /// small constants a raw coordinate may coincide with: 1/2, -1/2, 1, -1, 2, and the element whose Montgomery limbs are 1
 pub fn small_const<R: Rng>(rng: &mut R) -> Fq {
     let two = Fq::one() + Fq::one();
@@ -274,8 +280,8 @@ pub fn crafted_g1(pair: &(Vec<u8>, Vec<u8>)) -> Option<G1> {
 
 pub const TAGS: [&str; 5] = ["A", "J", "S", "Z0", "ZN"];
 /// number of rescaling classes of the "S" representatives (see g1_rep / g2_rep); `*_rep_class` forces one of them
-pub const G1_NSEL: usize = 8;
-pub const G2_NSEL: usize = 20;
+pub const G1_NSEL: usize = 9;
+pub const G2_NSEL: usize = 21;
 thread_local! {
     static G1_SEL: std::cell::Cell<Option<usize>> = const { std::cell::Cell::new(None) };
     static G2_SEL: std::cell::Cell<Option<usize>> = const { std::cell::Cell::new(None) };
@@ -298,7 +304,16 @@ pub fn g1_rep<R: Rng>(rng: &mut R, p: G1, tag: &str) -> G1 {
     if p.is_zero() {
         return match tag {
             "Z0" | "A" => G1::zero(),
-            "S" => G1::new(rand_fq_nonzero(rng), rand_fq_nonzero(rng), Fq::zero()), // arbitrary (x, y, 0)
+            "S" => {
+                // arbitrary (x, y, 0), including vanishing coordinates: (0, 0, 0), (x, 0, 0), (0, y, 0)
+                let (x, y) = (rand_fq_nonzero(rng), rand_fq_nonzero(rng));
+                match rng.gen_range(0..6) {
+                    0 => G1::new(Fq::zero(), Fq::zero(), Fq::zero()),
+                    1 => G1::new(x, Fq::zero(), Fq::zero()),
+                    2 => G1::new(Fq::zero(), y, Fq::zero()),
+                    _ => G1::new(x, y, Fq::zero()),
+                }
+            }
             _ => {
                 let t = G1::one() * rand_fr(rng);
                 t - t
@@ -313,7 +328,7 @@ pub fn g1_rep<R: Rng>(rng: &mut R, p: G1, tag: &str) -> G1 {
         }
         "S" => {
             let sel = G1_SEL.with(|c| c.replace(None)).unwrap_or_else(|| rng.gen_range(0..G1_NSEL));
-            if sel >= 6 {
+            if sel == 6 || sel == 7 {
                 // a raw x or y coordinate steered to a small constant (when such a representative exists)
                 let (which, c) = (rng.gen_range(0..3usize).min(1), small_const(rng));
                 if let Some(r) = g1_coord(p, which, c) {
@@ -323,6 +338,7 @@ pub fn g1_rep<R: Rng>(rng: &mut R, p: G1, tag: &str) -> G1 {
             let l = match sel {
                 0 => Fq::one() + Fq::one(),
                 1 => -Fq::one(),
+                8 => unity_root(rng),                       // l^3 = +-1: the raw y (up to sign) is unchanged, z^6 = 1
                 2 => mont_small(rng.gen_range(1..4)),       // z whose Montgomery limbs are a tiny integer
                 _ => rand_fq_nonzero(rng),
             };
@@ -348,7 +364,15 @@ pub fn g2_rep<R: Rng>(rng: &mut R, p: G2, tag: &str) -> G2 {
     if p.is_zero() {
         return match tag {
             "Z0" | "A" => G2::zero(),
-            "S" => G2::new(rand_fq2_nonzero(rng), rand_fq2_nonzero(rng), Fq2::zero()),
+            "S" => {
+                let (x, y) = (rand_fq2_nonzero(rng), rand_fq2_nonzero(rng));
+                match rng.gen_range(0..6) {
+                    0 => G2::new(Fq2::zero(), Fq2::zero(), Fq2::zero()),
+                    1 => G2::new(x, Fq2::zero(), Fq2::zero()),
+                    2 => G2::new(Fq2::zero(), y, Fq2::zero()),
+                    _ => G2::new(x, y, Fq2::zero()),
+                }
+            }
             _ => {
                 let t = G2::one() * rand_fr(rng);
                 t - t
@@ -374,7 +398,7 @@ pub fn g2_rep<R: Rng>(rng: &mut R, p: G2, tag: &str) -> G2 {
                     return g2_scale(p, l);
                 }
             }
-            if sel >= 16 {
+            if (16..=18).contains(&sel) {
                 // z of prescribed NORM (the first quantity Fq2::inverse computes, handed to the Fq inversion): 1, -1, 4, 1/4, 2^-256 ...
                 let n = match rng.gen_range(0..5) {
                     0 | 1 => Fq::one(),
@@ -386,13 +410,14 @@ pub fn g2_rep<R: Rng>(rng: &mut R, p: G2, tag: &str) -> G2 {
                     p.normalize();
                     return g2_scale(p, l);
                 }
-            } else if sel >= 13 {
+            } else if (13..=15).contains(&sel) {
                 let (which, c) = (rng.gen_range(0..3usize).min(1), small_const2(rng));
                 if let Some(r) = g2_coord(p, which, c) {
                     return r;
                 }
             }
             let l = match sel {
+                20 => Fq2::new(unity_root(rng), Fq::zero()),
                 11 => Fq2::new(mont_small(rng.gen_range(1..4)), Fq::zero()),
                 12 => Fq2::new(Fq::zero(), mont_small(1)),
                 0 => Fq2::one() + Fq2::one(),
